@@ -25,7 +25,7 @@
    Deviation from DESIGN: transfer(staging -> odb) into an empty odb is folded into [stage] (the
    store it returns is the odb after the transfer); the correspondence compares exactly that store. *)
 From Coq Require Import NArith List Bool Permutation.
-From DvcData Require Import Base.Val Base.MD5 Base.Json Model.Listing Model.RoundTrip Proofs.RoundTripBase Proofs.RoundTripProofs.
+From DvcData Require Import Base.Val Base.MD5 Base.Json Model.Listing Model.RoundTrip Gen.DbAdd Proofs.RoundTripBase Proofs.RoundTripProofs Proofs.RoundTripTie.
 Import ListNotations.
 Open Scope N_scope.
 
@@ -72,12 +72,12 @@ Print Assumptions C02_obj_healed.
    CURRENT tree t2, also when contents moved between paths.  Staging references are per build.  Staging in the model hashes the current bytes; that a warm
    hash-state cache is transparent is checked by the correspondence on runs with a State (C13 owns
    the cache's soundness theorem). *)
-Theorem C02_restage : forall (H : bytes -> list N) (path : list N) (t1 t2 : wtree) (s0 : store),
+Theorem C02_restage : forall (H : bytes -> list N) (path path2 : list N) (t1 t2 : wtree) (s0 : store),
   wf_tree t1 -> wf_tree t2 -> text_tree t2 -> digest_ok H ->
   collision_free (in_play H t1 ++ in_play H t2) ->
   exists sg1, stage H path (walk_of (rstrip_sep path) t1) = Ok sg1 /\
     (incl s0 (sg_store sg1) ->
-     exists sg2, stage_from H s0 path (walk_of (rstrip_sep path) t2) = Ok sg2 /\
+     exists sg2, stage_from H s0 path2 (walk_of (rstrip_sep path2) t2) = Ok sg2 /\
        checkout (sg_store sg2) (sg_oid sg2) = Ok (sort_by file_leb (files t2))).
 Proof. exact restage_thm. Qed.
 Print Assumptions C02_restage.
@@ -151,3 +151,50 @@ Theorem C02_obj_md5 : forall (path : list N) (t : wtree),
     sg_nfiles sg = N.of_nat (length (files t)) /\ sg_size sg = total_size (files t).
 Proof. exact obj_md5_thm. Qed.
 Print Assumptions C02_obj_md5.
+
+(* ---- tie of the store step to the source, through the translator (Gen/DbAdd.v, regenerated on every
+   run): [g_add] interprets the generated decisions of HashFileDB.add over the model's store extended
+   with the protected ids and the rows of the state transaction; for the calls the round trip makes it
+   IS the model's keep-first add ([model_add]: st_add_all + every distinct requested id protected and
+   recorded).  [valid] is what check(o, check_hash=True) decides; arbitrary. *)
+Theorem C02_tie_add : forall (valid : list N * bytes -> bool) objs w,
+  g_add valid None model_store_verify false add_default_check_exists objs w = Some (model_add objs w, false).
+Proof. exact tie_add_default. Qed.
+Print Assumptions C02_tie_add.
+
+Theorem C02_tie_tree_add : forall (valid : list N * bytes -> bool) dirobj w,
+  g_add valid tree_add_percall_verify model_store_verify tree_add_hardlink tree_add_check_exists [dirobj] w =
+  Some ({| a_store := st_add dirobj (a_store w);
+           a_prot := a_prot w ++ [fst dirobj]; a_rows := a_rows w ++ [fst dirobj] |}, false).
+Proof. exact tie_tree_add. Qed.
+Print Assumptions C02_tie_tree_add.
+
+Theorem C02_tie_transfer_add : forall (valid : list N * bytes -> bool) store_vfy objs w,
+  NoDup (map fst objs) -> (forall ob, In ob objs -> st_get (fst ob) (a_store w) = None) ->
+  g_add valid (Some false) store_vfy false false objs w = Some (model_add objs w, false).
+Proof. exact tie_transfer_add. Qed.
+Print Assumptions C02_tie_transfer_add.
+
+(* handed an id that is already there, transfer's add (check_exists=False) overwrites it: why
+   _do_transfer must restrict the per-directory add to the ids compare_status found to be new *)
+Theorem C02_tie_transfer_needs_absent : forall (valid : list N * bytes -> bool),
+  exists objs w, g_add valid (Some false) false false false objs w <> Some (model_add objs w, false).
+Proof. exact tie_transfer_needs_absent. Qed.
+Print Assumptions C02_tie_transfer_needs_absent.
+
+(* the store of [stage_from] (C02_obj_from, stage_from_spec) is the generated add of the file objects
+   followed by the generated add_update_tree of the directory object *)
+Theorem C02_tie_stage_store : forall (valid : list N * bytes -> bool) (Hd : bytes -> list N) s0 t,
+  let files_objs := objs_of Hd (files t) in
+  let dirobj := (digestH Hd (built_tree Hd t), as_bytes false (built_tree Hd t)) in
+  let w0 := {| a_store := s0; a_prot := []; a_rows := [] |} in
+  match g_add valid None model_store_verify false add_default_check_exists files_objs w0 with
+  | Some (w1, false) =>
+      g_add valid tree_add_percall_verify model_store_verify tree_add_hardlink tree_add_check_exists [dirobj] w1 =
+      Some ({| a_store := st_add dirobj (st_add_all files_objs s0);
+               a_prot := dedup_oids (map fst files_objs) ++ [fst dirobj];
+               a_rows := dedup_oids (map fst files_objs) ++ [fst dirobj] |}, false)
+  | _ => False
+  end.
+Proof. exact tie_stage_store. Qed.
+Print Assumptions C02_tie_stage_store.
